@@ -279,7 +279,7 @@ async fn conn_task(host: String, mut s: TcpStream) {
     LIVE.lock().insert((host.clone(), pid), LiveSession { key, conn: conn_idx, running: false, running_tags: vec![], cancel: cancel.clone(), cancelled: false });
 
     // ---- main loop ----
-    let mut framer = Framer::default();
+    let mut framer = Framer { pg_frontend_rules: true, ..Default::default() };
     let mut unit_open = false;
     let how: &str;
     'main: loop {
@@ -325,6 +325,9 @@ async fn conn_task(host: String, mut s: TcpStream) {
         {
             let mut h = HIST.lock();
             let c = &mut h.backend_conns[conn_idx];
+            // copy messages outside COPY are ignored by the server and produce nothing: such a
+            // message is a request unit of its own, not the beginning of the next client's request
+            let ignored_alone = !unit_open && matches!(m.ty, b'd' | b'c' | b'f') && sess.copy_in.is_none();
             if !unit_open {
                 c.units.push(Unit { first_seq: seq, status_before: sess.txn, ..Default::default() });
                 unit_open = true;
@@ -334,6 +337,10 @@ async fn conn_task(host: String, mut s: TcpStream) {
             u.in_bytes.extend_from_slice(&mbytes);
             u.in_types.push(m.ty);
             u.tags.extend(sqlmini::find_tags(&m.body));
+            if ignored_alone {
+                u.rfq = sess.txn;
+                unit_open = false;
+            }
         }
         if m.ty == b'X' {
             how = "terminate";
